@@ -7,35 +7,35 @@ props = [json.loads(l) for l in open(os.path.join(V, "properties.jsonl"))]
 MC = "model_checking"
 CHECKS = {
     "C07": dict(engine="shim", design="5/C07", technique="TLA+ ShimAgent spec: TLC exhaustive + LTS replay on real shimagent.Server + TLC trace validation",
-        text="TLC checks the step formula C07_Step on every transition of the bounded ShimAgent model (all histories of add/add-hard/remove/remove-all/list/signers/sign/direct removal/tick over 2 keys x 3-4 certificates of every validity class, both upstream modes); every exported transition is replayed on a real Server over a real x/crypto agent and must reproduce result and state; random histories with concrete keys/certificate windows are validated by TLC against TraceShim. Model checking is the right level: the property quantifies over histories, which the bounded model enumerates completely and the replay binds to the code.",
+        text="TLC checks the step formula C07_Step on every transition of the bounded ShimAgent model (all histories of add/add-hard/remove/remove-all/list/signers/sign/direct removal/tick over 2 keys x 3-4 certificates of every validity class, both upstream modes); every exported transition is replayed on a real Server over a real x/crypto agent and must reproduce result and state; random histories with concrete keys/certificate windows are validated by TLC against TraceShim. Model checking is the right level: the property quantifies over histories, which the bounded model enumerates completely and the replay binds to the code. Added by the seed rounds: environment action DirectAdd, security-key (sk-*) identities through a software FIDO authenticator, a universe with three certificates over one key (two out-of-window certificates over one key, one in memory and one in the agent), an operation watchdog (a call that does not return is rejected).",
         note="bounded universe (<=4 certificates, 2 epochs); validity realised with wall-clock certificates (boundary second never judged); underlying agent = x/crypto keyring behind the harness proxy; unexported Server fields read through an in-package accessor"),
     "C08": dict(engine="shim", design="5/C08", technique="TLA+ ShimAgent spec: TLC exhaustive + LTS replay + TLC trace validation (lock family)",
-        text="C08_Step is model-checked over all interleavings of lock/unlock (right/wrong passphrases, direct locks of the underlying agent, refused requests) with every other operation; every transition is replayed on the real Server and random lock histories are validated by TLC.",
+        text="C08_Step is model-checked over all interleavings of lock/unlock (right/wrong passphrases, direct locks of the underlying agent, refused requests) with every other operation; every transition is replayed on the real Server and random lock histories are validated by TLC. Added by the seed rounds: concurrent raw forwards while locked (ForwardStorm), a List / RemoveAll arriving while a Lock is held inside its upstream request (LockRace: served entirely before or entirely after), passphrases instantiated as near misses of each other (trailing line terminator, case, blanks), the right passphrase must unlock.",
         note="assumes nobody unlocks the underlying agent directly while the shim holds it locked; bounded universe"),
     "C09": dict(engine="shim", design="5/C09", technique="TLA+ ShimAgent spec: TLC exhaustive (both modes) + LTS replay + TLC trace validation",
-        text="C09_Step (exact listing counts per identity in both modes, refusal of hidden certificates, removability) is model-checked over all histories in both upstream modes and replayed/validated on the real Server with KeyIDs of every YSSHCA type, near-misses and free text.",
+        text="C09_Step (exact listing counts per identity in both modes, refusal of hidden certificates, removability) is model-checked over all histories in both upstream modes and replayed/validated on the real Server with KeyIDs of every YSSHCA type, near-misses and free text. Added by the seed rounds: KeyID texts with trailing data, null / empty principals and unknown extra members, security-key certificates, identities added behind the shim's back.",
         note="KeyID classes abstracted to decodes/does-not-decode in the model, instantiated concretely (8 YSSHCA shapes, 11 non-YSSHCA shapes) by the harness"),
     "C10": dict(engine="shim", design="5/C10", technique="TLA+ ShimAgent spec with fault actions: TLC exhaustive + LTS replay + fault-step trace validation",
-        text="C10_Step (hardware-certificate admission, exact pass-through listing, signature under the certificate key, add/remove effects, byte-identical Forward, construction and every fault kind of the underlying agent on every request kind) is model-checked on the fault model and every deterministic transition replayed; faulted steps and construction through New() over a unix socket are recorded and judged by TLC.",
+        text="C10_Step (hardware-certificate admission, exact pass-through listing, signature under the certificate key, add/remove effects, byte-identical Forward, construction and every fault kind of the underlying agent on every request kind) is model-checked on the fault model and every deterministic transition replayed; faulted steps and construction through New() over a unix socket are recorded and judged by TLC. Added by the seed rounds: replies delivered in fragments, boundary-size forwards (4 KiB, 64 KiB, 16 MiB, each -6..0), SignWithAlgorithm with the key's own algorithm on every returned signer, an operation watchdog.",
         note="fault kinds: failure reply, garbage, wrong-kind reply, oversized frame, closed connection, applied to the first request of a chosen kind per operation; one known finding (wrong-kind reply panics inside x/crypto) is listed in known_findings.txt"),
     "C11": dict(engine="conc", design="5/C11", technique="TLA+ ShimConc micro-step model with MEASURED lock table (TLC, 2-3 threads, safety + liveness) + forced-overlap schedules under the race detector + TLC linearisation search (TraceLin) of concurrent batches",
-        text="The lock mode of Server.mu during every upstream request of every operation is measured on the real code (TryLock/TryRLock probes while the proxy withholds the reply) and written into the ShimConc configuration; TLC checks table/wire mutual exclusion, own-reply and completion for all interleavings of 2 (quick) / 3 (thorough) threads over all operation kinds. Every ordered pair of operations is run with A suspended inside each of its upstream requests while B starts (race detector + frame-aware monitor on the single upstream connection + watchdog), and batches of 2..16 goroutines are recorded and TLC searches a sequential ordering of the ShimAgent design that explains every result and the final state.",
+        text="The lock mode of Server.mu during every upstream request of every operation is measured on the real code (TryLock/TryRLock probes while the proxy withholds the reply) and written into the ShimConc configuration; TLC checks table/wire mutual exclusion, own-reply and completion for all interleavings of 2 (quick) / 3 (thorough) threads over all operation kinds. Every ordered pair of operations is run with A suspended inside each of its upstream requests while B starts (race detector + frame-aware monitor on the single upstream connection + watchdog), and batches of 2..16 goroutines are recorded and TLC searches a sequential ordering of the ShimAgent design that explains every result and the final state. Added by the seed rounds: error exits in the model (a failed exchange must still release; measured Leaky set from fault injection at every upstream request), a slow underlying agent (requests left unanswered for 12 / 35 s), every forced-overlap experiment also judged by the linearisation search, and the connection level: ConnServe.tla (handler-local buffers, own reply, exactly-once forwarding; a deliberately broken variant must be refuted) validated against 2..16 client connections served by the real yubiagent.ServeAgent on one server.",
         note="verdicts come only from real-code observations (race report, overlapping frames, hang, batch without sequential explanation); a model counterexample that is not reproduced is exit 2; Prog (segment sequence per operation) is transcribed by reading, LockMode and raw/call are measured"),
     "C06": dict(engine="attest", design="5/C06 and notes/attest.md", level="model_checking",
         technique="explicit TLA+ decision model of EMSA-PKCS1-v1_5 verification + chain/label/key-type context (Attest.tla), TLC exhaustive over the full case product with sanity theorems, every exported case materialised on real RSA keys (harness-side EM^d mod N) and judged by TLC trace validation",
-        text="TLC enumerates the full product hashes x 2 DigestInfo layouts x every single mutation of the encoded message (every region, every octet class, shifted/shortened padding, prefix or digest of another hash) x 17 signature-algorithm labels x 9 chain relations x device key types (342 261 distinct states) and checks layout uniqueness, prefix-freeness, 'every mutation is invalid' and 'acceptance implies every clause of the statement'; every exported case is materialised on real RSA device keys of 1024/2048/3072 (thorough: 1536, 4096) bits - the harness owns the private key and computes EM^d mod N itself so any encoded message can be presented - and the verdict of (*Attestor).Attest is judged by TLC (TraceAttest) against Accept(case); random bit flips of signature/body, all labels, non-RSA device keys in direction B.",
+        text="TLC enumerates the full product hashes x 2 DigestInfo layouts x every single mutation of the encoded message (every region, every octet class, shifted/shortened padding, prefix or digest of another hash) x 17 signature-algorithm labels x 9 chain relations x device key types (342 261 distinct states) and checks layout uniqueness, prefix-freeness, 'every mutation is invalid' and 'acceptance implies every clause of the statement'; every exported case is materialised on real RSA device keys of 1024/2048/3072 (thorough: 1536, 4096) bits - the harness owns the private key and computes EM^d mod N itself so any encoded message can be presented - and the verdict of (*Attestor).Attest is judged by TLC (TraceAttest) against Accept(case); random bit flips of signature/body, all labels, non-RSA device keys in direction B. The case classes grew in seed rounds 4-8 (label vs scheme, accepting predecessors, odd modulus sizes, time on a long-lived Attestor, buffer reuse / transport-dead endpoints, process history of trust stores, request contexts, client-auth policy and CA hints, request-content classes, same-subject CAs, multi-call histories, expiry boundaries): see the notes file of the family.",
         note="decision-table property: TLC enumerates and judges; RSA arithmetic, hashing and X.509 minting are the harness's and Go's; labels 7..12 (DSA/ECDSA-with-SHA labels on an RSA key) are left open because the statement neither accepts nor rejects them; e = 65537 only"),
     "C16": dict(engine="attest", design="5/C16 and notes/attest.md", level="exploration",
         technique="TLC-enumerated certificate shapes / PEM bundles / serial-extension values (Attest.tla) minted by crypto/x509, differential comparison with crypto/x509.ParseCertificate, ModHex function and injectivity theorems checked by TLC, byte mutations for crash freedom; all recorded calls judged by TLC",
-        text="TLC enumerates certificate shapes (key type incl. RSA without the NULL parameter x signature algorithm x extension subsets x clean/trailing data), PEM bundles of 0..5 certificates with leading text / trailing whitespace / garbage, and serial-extension values of length 0..8, with the ModHex function and its injectivity on serial numbers as theorems; every shape is minted with crypto/x509 and parsed by both parsers (field-by-field equality recorded), every ModHex and PEM case executed, ~29 000 byte mutants for crash freedom; TLC judges every recorded call. Exploration level: the agreement with the standard parser is a differential oracle computed by the harness.",
+        text="TLC enumerates certificate shapes (key type incl. RSA without the NULL parameter x signature algorithm x extension subsets x clean/trailing data), PEM bundles of 0..5 certificates with leading text / trailing whitespace / garbage, and serial-extension values of length 0..8, with the ModHex function and its injectivity on serial numbers as theorems; every shape is minted with crypto/x509 and parsed by both parsers (field-by-field equality recorded), every ModHex and PEM case executed, ~29 000 byte mutants for crash freedom; TLC judges every recorded call. Exploration level: the agreement with the standard parser is a differential oracle computed by the harness. The case classes grew in seed rounds 4-8 (label vs scheme, accepting predecessors, odd modulus sizes, time on a long-lived Attestor, buffer reuse / transport-dead endpoints, process history of trust stores, request contexts, client-auth policy and CA hints, request-content classes, same-subject CAs, multi-call histories, expiry boundaries): see the notes file of the family.",
         note="ASN.1 fidelity is a differential oracle in the harness; TLC fixes the verdict class of every shape and computes the expected ModHex string from the recorded octets; shapes are those x509.CreateCertificate can emit"),
     "C17": dict(engine="signer", design="5/C17 and notes/signer.md", level="model_checking",
         technique="explicit TLA+ spec (Signer.tla) + TLC exhaustive model checking; exhaustive configuration replay and seeded random reply shapes on the real code via in-package harness over bufconn; TLC trace validation with per-property reporting action constraints",
-        text="TLC checks C17_Step on every configuration of the bounded model (endpoint lists 0..4 over 7 (quick) / 11 (thorough) outcome templates, lists <= 2 over the 16 gRPC status codes; bounded backoff model); every configuration is executed on the real (*Signer).Sign against per-endpoint stub Signing servers (server-side arrivals with request comparison, return values) and the extremes of 200 backoff draws per input class are recorded; every recorded step is validated by TLC against TraceSigner. Model checking fits: the property quantifies over fault vectors, which the bounded model enumerates and the replay binds to the code.",
+        text="TLC checks C17_Step on every configuration of the bounded model (endpoint lists 0..4 over 7 (quick) / 11 (thorough) outcome templates, lists <= 2 over the 16 gRPC status codes; bounded backoff model); every configuration is executed on the real (*Signer).Sign against per-endpoint stub Signing servers (server-side arrivals with request comparison, return values) and the extremes of 200 backoff draws per input class are recorded; every recorded step is validated by TLC against TraceSigner. Model checking fits: the property quantifies over fault vectors, which the bounded model enumerates and the replay binds to the code. The case classes grew in seed rounds 4-8 (label vs scheme, accepting predecessors, odd modulus sizes, time on a long-lived Attestor, buffer reuse / transport-dead endpoints, process history of trust stores, request contexts, client-auth policy and CA hints, request-content classes, same-subject CAs, multi-call histories, expiry boundaries): see the notes file of the family.",
         note="endpoint names are IP literals; 'deadline' = no answer within the per-try timeout; Retries fixed to 1 so real backoff sleeps are not executed (the delay function is checked in isolation, its draws come from the code's own time-seeded generator); the upper delay bound is widened by one ulp / 1 ns"),
     "C18": dict(engine="signer", design="5/C18 and notes/signer.md", level="model_checking",
         technique="explicit TLA+ spec (Signer.tla) + TLC exhaustive model checking; configuration replay on the real NewSigner/Sign against real TLS gRPC servers over loopback TCP with certificates minted per run; TLC trace validation",
-        text="TLC checks C18_Step on every endpoint list (<= 2 over 27 identity/version/client-certificate-policy templates and <= 3 over 9 identity/version kinds in the quick tier; <= 3 over 27 in the thorough tier) x 4 bundle variants, identities incl. genuine under either bundle file, foreign CA, host-trusted CA outside the bundle, self-signed, expired, wrong name, TLS<=1.1 only; every configuration is executed with a signer from the real NewSigner against real TLS gRPC servers on 127.0.0.1-4; servers record handshake result, negotiated version and the client certificate presented; TLC validates every step.",
+        text="TLC checks C18_Step on every endpoint list (<= 2 over 27 identity/version/client-certificate-policy templates and <= 3 over 9 identity/version kinds in the quick tier; <= 3 over 27 in the thorough tier) x 4 bundle variants, identities incl. genuine under either bundle file, foreign CA, host-trusted CA outside the bundle, self-signed, expired, wrong name, TLS<=1.1 only; every configuration is executed with a signer from the real NewSigner against real TLS gRPC servers on 127.0.0.1-4; servers record handshake result, negotiated version and the client certificate presented; TLC validates every step. The case classes grew in seed rounds 4-8 (label vs scheme, accepting predecessors, odd modulus sizes, time on a long-lived Attestor, buffer reuse / transport-dead endpoints, process history of trust stores, request contexts, client-auth policy and CA hints, request-content classes, same-subject CAs, multi-call histories, expiry boundaries): see the notes file of the family.",
         note="name matching is exercised through IP SANs only (no DNS in the sandbox); the host trust store is controlled through SSL_CERT_FILE/SSL_CERT_DIR set by the harness; Go's TLS and gRPC stacks are trusted for the handshake itself"),
 }
 
